@@ -5,25 +5,18 @@ import random
 from . import core, ir as I, progcheck as PC
 
 
-def model(out):
+CFG = ('CONSTANT Mechanism = "{mech}"\nINIT InitX\nNEXT Next\nCONSTRAINT Collect\nINVARIANT LawsOrSignature\nINVARIANT NoOtherDifference\n'
+       '{export}POSTCONDITION Report\nCHECK_DEADLOCK FALSE\n')
+
+
+def model(out, mech="native", export=True):
     """TLC: every statement shape x instrumented set through Py / X; returns (signatures, shapes)"""
-    r = core.run_tlc("XformMC", "XformMC.cfg", workers=1, timeout=1800)
-    out.add_tlc("XformMC", r)
+    r = core.run_tlc("XformMC", CFG.format(mech=mech, export="INVARIANT Export\n" if export else ""), workers=1, timeout=1800)
+    out.add_tlc(f"XformMC[{mech}]", r)
     if r.violated:
         out.judge({"clause": "XformModel"}, {"tlc": r.out[-2500:]})
     sigs = {t[1]: {"stmt": json.loads(t[2]), "instrumented": json.loads(t[3])} for t in r.tagged("SIGNATURE")}
-    return sigs, r
-
-
-def shapes_of(r):
-    return [json.loads(t[1]) for t in r.tagged("SHAPE")]
-
-
-def export_shapes(out):
-    cfg = "INIT InitX\nNEXT Next\nCONSTRAINT Collect\nINVARIANT Export\nCHECK_DEADLOCK FALSE\n"
-    r = core.run_tlc("XformMC", cfg, workers=1, timeout=1800)
-    out.add_tlc("XformMC[export]", r)
-    return shapes_of(r)
+    return sigs, [json.loads(t[1]) for t in r.tagged("SHAPE")]
 
 
 def programs(shapes, first=7000):
@@ -34,11 +27,15 @@ def programs(shapes, first=7000):
     return progs
 
 
-def run(out, tier, seed, clauses, variants, nsample):
+def run(out, tier, seed, clauses, variants, nsample, pinned=False):
     rng = random.Random(seed * 7919 + 101)
-    sigs, r = model(out)
-    shapes = export_shapes(out)
+    sigs, shapes = model(out)
     witnesses = [s["stmt"] for s in sigs.values()]
+    if pinned:
+        # the rewrite of the pinned tree (unpacking by index) must still show its three difference classes: the laws discriminate
+        old, _ = model(out, "index", export=False)
+        if sorted(old) != ["StarredTarget", "SubscriptIndexTwice", "UnpackByIndex"]:
+            out.drift.append(f"Xform with the pinned mechanism derives {sorted(old)}")
     if nsample and len(shapes) > nsample:
         shapes = rng.sample(shapes, nsample)
     progs = programs(witnesses + shapes)
